@@ -16,7 +16,7 @@ Open Scope list_scope.
 
 (** * Relative paths as Rust's [Path::components] sees them *)
 Inductive comp := Normal (s : string) | ParentDir | CurDir | RootDir.
-Definition rel := list comp.
+Notation rel := (list comp).
 Global Instance comp_eq_dec : EqDecision comp.
 Proof. solve_decision. Defined.
 
